@@ -1,6 +1,7 @@
 package props
 
 import (
+	"os"
 	"fmt"
 	"go/token"
 	"strings"
@@ -144,7 +145,45 @@ func checkStateResponse(c *fw.Ctx) {
 			}
 		}
 	}
-	c.Check(applications == 2, rule, "both the auth-event list and the state-event list are filtered", c.P.Pos(fn.Pos()), "", fmt.Sprintf("%d filter applications found (in place or through a helper taking the failure set)", applications))
+	// slices.DeleteFunc(list, pred) with a predicate that looks the event up in the failure set
+	for _, dc := range deepCallsTo(fn, func(n string) bool { return strings.HasPrefix(n, "slices.DeleteFunc") }) {
+		args := dc.Call.Common().Args
+		if len(args) != 2 {
+			continue
+		}
+		mc, isMC := fw.Origin(args[1]).(*ssa.MakeClosure)
+		if !isMC {
+			continue
+		}
+		pred, _ := mc.Fn.(*ssa.Function)
+		looksUp := false
+		if pred != nil {
+			for _, b := range pred.Blocks {
+				for _, ins := range b.Instrs {
+					if lk, ok := ins.(*ssa.Lookup); ok && lk.CommaOk && strings.Contains(fw.Sig(lk.Index), ".EventID(") {
+						// the predicate is "has a recorded failure": it returns the presence flag
+						for _, r := range fw.Returns(pred) {
+							if ex, isEx := r.Results[0].(*ssa.Extract); isEx && ex.Tuple == ssa.Value(lk) && ex.Index == 1 {
+								looksUp = true
+							}
+						}
+					}
+				}
+			}
+		}
+		if looksUp {
+			applications++
+			c.Ok(rule, "an event is removed from a returned list exactly when it has a recorded failure", c.P.Pos(dc.Call.Pos()), "slices.DeleteFunc with the failure-set membership predicate")
+		}
+	}
+	switch {
+	case applications == 2:
+		c.Ok(rule, "both the auth-event list and the state-event list are filtered", c.P.Pos(fn.Pos()), "")
+	case applications == 0 && len(deepCallsTo(fn, func(n string) bool { return strings.Contains(n, "Delete") || strings.Contains(n, "Filter") || strings.Contains(n, "filter") })) > 0:
+		c.Undecided(rule, "both the auth-event list and the state-event list are filtered", "no filter application in a form the rule recognises, but the function calls a deleting / filtering routine")
+	default:
+		c.Fail(rule, "both the auth-event list and the state-event list are filtered", c.P.Pos(fn.Pos()), fmt.Sprintf("%d filter applications found (in place or through a helper taking the failure set)", applications))
+	}
 	// helper functions with deletion idioms anywhere in the package are checked too
 	for _, f := range c.P.SrcFuncs() {
 		if f == fn || f.Pkg == nil || f.Pkg.Pkg.Path() != fw.ModPath {
@@ -158,11 +197,16 @@ func checkStateResponse(c *fw.Ctx) {
 	var errConds []string
 	for _, r := range fw.Returns(fn) {
 		if len(fw.ErrNilSuccess(fn, fw.ErrIndex(fn), nil)(r, fw.Reachable(fn, nil), nil)) == 0 {
-			errConds = append(errConds, condsOf(r.Block()))
+			for _, ob := range fw.ExitOrigins(r, fw.ErrIndex(fn)) {
+				errConds = append(errConds, condsOf(ob))
+			}
 		}
 	}
 	all := strings.Join(errConds, " ## ")
-	c.Check(strings.Count(all, ".StateKey(") >= 2 && strings.Contains(all, " == nil"), rule, "non-state events make the response fail (auth and state lists)", c.P.Pos(fn.Pos()), "", "fewer than two refusals on a nil state key")
+	if os.Getenv("GMSL_DEBUG") != "" {
+		fmt.Println("DEBUG C14 errConds:", all)
+	}
+	c.Check(strings.Count(all, ".StateKey(") >= 2 && (strings.Contains(all, " == nil") || strings.Contains(all, " != nil)")), rule, "non-state events make the response fail (auth and state lists)", c.P.Pos(fn.Pos()), "", "fewer than two refusals on a nil state key")
 	c.Check(strings.Contains(all, "makemap[*local:*gmsl.StateKeyTuple]") || strings.Contains(all, "StateKeyTuple"), rule, "duplicate (type, state_key) tuples make the response fail", c.P.Pos(fn.Pos()), "", "no refusal on a repeated state tuple")
 	// what is returned are the parsed lists
 	for _, r := range fw.Returns(fn) {
@@ -173,7 +217,7 @@ func checkStateResponse(c *fw.Ctx) {
 						if fw.CalleeName(cl) == "builtin.append" {
 							return []int{0}
 						}
-						if strings.Contains(fw.CalleeName(cl), "discard") || strings.Contains(fw.CalleeName(cl), "filter") {
+						if strings.Contains(fw.CalleeName(cl), "discard") || strings.Contains(fw.CalleeName(cl), "filter") || strings.HasPrefix(fw.CalleeName(cl), "slices.DeleteFunc") {
 							return []int{0}
 						}
 						return nil
